@@ -41,6 +41,8 @@ def gen_options(rnd):
         opts.append('-l')
     if rnd.random() < 0.5:
         opts += ['-w', str(rnd.choice((40, 45, 60, 79, 120, 200)))]
+    if rnd.random() < 0.15:
+        opts.append('-r')
     for name, vals in (('DefbSize', (1, 2, 3, 8, 20)), ('DefmSize', (1, 2, 5, 65)), ('DefwSize', (1, 2, 3)),
                        ('Opcodes', ('ALL', 'ED63,ED6B', 'NEG,RETN,IM', 'XYCB', 'ED70,ED71', '')),
                        ('Timings', (0, 1)), ('Text', (0, 1)), ('InstructionWidth', (5, 13, 30)), ('Semicolons', ('c', 'bcgstuw', ''))):
